@@ -29,11 +29,13 @@
 
 /* ---- ghosts shared by all sections ---------------------------------------------------------------------------- */
 typedef unsigned short unsigned_short;   /* (a job header cannot pass a type name with a blank) */
-long xv_i16;                    /* arbitrary index into a 16-byte IPv6 address (never assigned) */
+/* arbitrary index into a 16-byte IPv6 address: derived from xv_mc, the offset whose byte env/base.h's memcpy model copies
+ * (never assigned), so that what is known about a memcpy'd address is known at the index the records speak about */
+#define xv_i16 ((long)(xv_mc & 15))
 long xv_nj;                     /* arbitrary index into host->name (never assigned) */
 long xv_hb;                     /* arbitrary byte offset into an output object (never assigned) */
 uint8_t xv_g_b0, xv_g_b1;       /* ghost constants bound to entry values by requires clauses (never assigned) */
-#define XV_I16_OK (xv_i16 >= 0 && xv_i16 < 16)
+#define XV_I16_OK 1
 #define XV_NJ_OK (xv_nj >= 0 && xv_nj < (long)XV_NAME_ROOM)
 /* protocol name as an integer: up to five characters, little end first; 0xff in byte 5 = longer than that */
 #define XV_PB(p, i) ((uint64_t)(uint8_t)(p)[i] << (8 * (i)))
@@ -117,7 +119,7 @@ _Bool xv_pf_addr, xv_pf_namep; uint32_t xv_pf_ip4; uint8_t xv_pf_ipb; char xv_pf
 /* contract text of a <proto>:<host>:<port> parser (host_port_parse with its protocol name, or a public xcm_addr_parse_X) */
 #define XV_PF_POST(pk, addr_s, h, port) (XV_PF_CALL(pk, addr_s) && __CPROVER_return_value == xv_pf_rv && xv_errno == xv_pf_errno && \
                                          (__CPROVER_return_value == 0 ==> XV_PF_DELIVERED(h, port)) && (__CPROVER_return_value == -1 ==> *(port) == __CPROVER_old(*(port))))
-#define XV_PF_WRAPPER(fn, pk) \
+#define XV_PF_CONTRACT(fn, pk) \
     int fn(const char *addr_s, struct xcm_addr_host *host, uint16_t *port) \
     __CPROVER_requires(__CPROVER_is_fresh(addr_s, 8) && __CPROVER_is_fresh(host, sizeof(*host)) && __CPROVER_is_fresh(port, sizeof(*port)) && XV_PF_PRE) \
     __CPROVER_assigns(xv_errno, XV_PF_GHOSTS, __CPROVER_object_whole(host), *port) \
@@ -125,7 +127,7 @@ _Bool xv_pf_addr, xv_pf_namep; uint32_t xv_pf_ip4; uint8_t xv_pf_ipb; char xv_pf
 /* UX / UXF: name buffer and capacity instead of host and port */
 #define XV_UXP_POST(pk, addr_s, name, cap) (XV_PF_CALL(pk, addr_s) && XV_BEQ(xv_pf_namep, (name) == xv_t_out) && xv_pf_cap == (cap) && \
                                             __CPROVER_return_value == xv_pf_rv && xv_errno == xv_pf_errno)
-#define XV_UXP_WRAPPER(fn, pk) \
+#define XV_UXP_CONTRACT(fn, pk) \
     int fn(const char *addr_s, char *name, size_t capacity) \
     __CPROVER_requires(__CPROVER_is_fresh(addr_s, 8) && capacity <= XV_CAP_MAX && XV_OUT(name, capacity) && XV_PF_PRE) \
     __CPROVER_assigns(xv_errno, XV_PF_GHOSTS) \
@@ -139,14 +141,14 @@ _Bool xv_pf_addr, xv_pf_namep; uint32_t xv_pf_ip4; uint8_t xv_pf_ipb; char xv_pf
 #else
 #define XV_MK_PSZ(psz) 1
 #endif
-#define XV_MK_WRAPPER(fn, pk, PT, psz) \
+#define XV_MK_CONTRACT(fn, pk, PT, psz) \
     int fn(const struct xcm_addr_host *host, PT port, char *out, size_t capacity) \
     __CPROVER_requires(XV_MK_PSZ(psz) && __CPROVER_is_fresh(host, sizeof(*host)) && XV_HOST_OK(host) && capacity <= XV_CAP_MAX && XV_OUT(out, capacity) && XV_MK_PRE) \
     __CPROVER_assigns(XV_MK_ASSIGNS) \
     __CPROVER_assigns(capacity > 0: __CPROVER_object_upto(out, capacity)) \
     __CPROVER_ensures(XV_MK_CALL(pk, port, out, capacity) && XV_MK_HOSTREC(host)) \
     __CPROVER_ensures(MAKE_HONEST(__CPROVER_return_value, capacity) && MAKE_FAIL(__CPROVER_return_value) && XV_MK_IP_OK(host->type, host->ip.family, capacity))
-#define XV_UXM_WRAPPER(fn, pk) \
+#define XV_UXM_CONTRACT(fn, pk) \
     int fn(const char *name, char *out, size_t capacity) \
     __CPROVER_requires(__CPROVER_is_fresh(name, 8) && name[7] == 0 && capacity <= XV_CAP_MAX && XV_OUT(out, capacity) && XV_MK_PRE) \
     __CPROVER_assigns(XV_MK_ASSIGNS) \
@@ -342,19 +344,19 @@ __CPROVER_ensures(MAKE_HONEST(__CPROVER_return_value, capacity) && MAKE_FAIL(__C
 /* ---- the sixteen public wrappers: each passes exactly its own protocol name and its arguments on -------------------- */
 #ifdef XV_AP_WRAP_PF
 /* PO[C12] xcm_addr_parse_X.own_protocol_and_arguments */
-XV_PF_WRAPPER(XV_AP_WRAP_PF, XV_AP_WRAP_PK);
+XV_PF_CONTRACT(XV_AP_WRAP_PF, XV_AP_WRAP_PK);
 #endif
 #ifdef XV_AP_WRAP_UXP
 /* PO[C12] xcm_addr_parse_UX.own_protocol_and_arguments */
-XV_UXP_WRAPPER(XV_AP_WRAP_UXP, XV_AP_WRAP_PK);
+XV_UXP_CONTRACT(XV_AP_WRAP_UXP, XV_AP_WRAP_PK);
 #endif
 #ifdef XV_AP_WRAP_MK
 /* PO[C12] xcm_addr_make_X.own_protocol_and_arguments */
-XV_MK_WRAPPER(XV_AP_WRAP_MK, XV_AP_WRAP_PK, XV_AP_WRAP_PT, XV_AP_WRAP_PSZ);
+XV_MK_CONTRACT(XV_AP_WRAP_MK, XV_AP_WRAP_PK, XV_AP_WRAP_PT, XV_AP_WRAP_PSZ);
 #endif
 #ifdef XV_AP_WRAP_UXM
 /* PO[C12] xcm_addr_make_UX.own_protocol_and_arguments */
-XV_UXM_WRAPPER(XV_AP_WRAP_UXM, XV_AP_WRAP_PK);
+XV_UXM_CONTRACT(XV_AP_WRAP_UXM, XV_AP_WRAP_PK);
 #endif
 #endif /* XV_AP_ADDR */
 
@@ -364,10 +366,10 @@ XV_UXM_WRAPPER(XV_AP_WRAP_UXM, XV_AP_WRAP_PK);
  * xcm_addr_parse_ux / xcm_addr_make_ux) are ASSUMED with the very contract text that is ENFORCED on them in the
  * XV_AP_ADDR jobs; everything below is stated in the vocabulary of that text: "what the new-API function returned, set
  * errno to and delivered" is xv_pf_rv / xv_pf_errno / xv_pf_type, _family, _ip4, _ipb, _port (makers: xv_mk_*). */
-XV_PF_WRAPPER(xcm_addr_parse_utls, XV_P_UTLS); XV_PF_WRAPPER(xcm_addr_parse_tls, XV_P_TLS); XV_PF_WRAPPER(xcm_addr_parse_tcp, XV_P_TCP); XV_PF_WRAPPER(xcm_addr_parse_sctp, XV_P_SCTP);
-XV_UXP_WRAPPER(xcm_addr_parse_ux, XV_P_UX);
-XV_MK_WRAPPER(xcm_addr_make_utls, XV_P_UTLS, uint16_t, 5); XV_MK_WRAPPER(xcm_addr_make_tls, XV_P_TLS, uint16_t, 4); XV_MK_WRAPPER(xcm_addr_make_tcp, XV_P_TCP, uint16_t, 4); XV_MK_WRAPPER(xcm_addr_make_sctp, XV_P_SCTP, uint16_t, 5);
-XV_UXM_WRAPPER(xcm_addr_make_ux, XV_P_UX);
+XV_PF_CONTRACT(xcm_addr_parse_utls, XV_P_UTLS); XV_PF_CONTRACT(xcm_addr_parse_tls, XV_P_TLS); XV_PF_CONTRACT(xcm_addr_parse_tcp, XV_P_TCP); XV_PF_CONTRACT(xcm_addr_parse_sctp, XV_P_SCTP);
+XV_UXP_CONTRACT(xcm_addr_parse_ux, XV_P_UX);
+XV_MK_CONTRACT(xcm_addr_make_utls, XV_P_UTLS, uint16_t, 5); XV_MK_CONTRACT(xcm_addr_make_tls, XV_P_TLS, uint16_t, 4); XV_MK_CONTRACT(xcm_addr_make_tcp, XV_P_TCP, uint16_t, 4); XV_MK_CONTRACT(xcm_addr_make_sctp, XV_P_SCTP, uint16_t, 5);
+XV_UXM_CONTRACT(xcm_addr_make_ux, XV_P_UX);
 
 /* which new-API function a function pointer stands for, as its protocol name */
 #define XV_PFUN_OK(f) ((f) == xcm_addr_parse_utls || (f) == xcm_addr_parse_tls || (f) == xcm_addr_parse_tcp || (f) == xcm_addr_parse_sctp)
@@ -403,19 +405,19 @@ __CPROVER_ensures(XV_DP_RESULT)
 /* PO[C12] delegate_parse.outputs: on success the wrapped parser's address and port, unchanged; on failure nothing */
 __CPROVER_ensures(XV_DP_OUTPUTS(ip, port))
 ;
-#define XV_P6_CONTRACT(fn, pk) \
+#define XV_PSIX_CONTRACT(fn, pk) \
     int fn(const char *addr_s, struct xcm_addr_ip *ip, uint16_t *port) \
     __CPROVER_requires(XV_DP_PRE(addr_s, ip, port)) \
     __CPROVER_assigns(XV_DP_ASSIGNS(ip, port)) \
     __CPROVER_ensures(XV_DP_WRAPS(pk, addr_s) && XV_DP_RESULT && XV_DP_OUTPUTS(ip, port))
 /* PO[C12] xcm_addr_utls6_parse.as_new_api_ip_only */
-XV_P6_CONTRACT(xcm_addr_utls6_parse, XV_P_UTLS);
+XV_PSIX_CONTRACT(xcm_addr_utls6_parse, XV_P_UTLS);
 /* PO[C12] xcm_addr_tls6_parse.as_new_api_ip_only */
-XV_P6_CONTRACT(xcm_addr_tls6_parse, XV_P_TLS);
+XV_PSIX_CONTRACT(xcm_addr_tls6_parse, XV_P_TLS);
 /* PO[C12] xcm_addr_tcp6_parse.as_new_api_ip_only */
-XV_P6_CONTRACT(xcm_addr_tcp6_parse, XV_P_TCP);
+XV_PSIX_CONTRACT(xcm_addr_tcp6_parse, XV_P_TCP);
 /* PO[C12] xcm_addr_sctp6_parse.as_new_api_ip_only */
-XV_P6_CONTRACT(xcm_addr_sctp6_parse, XV_P_SCTP);
+XV_PSIX_CONTRACT(xcm_addr_sctp6_parse, XV_P_SCTP);
 
 /* --- IPv4-only parsers (parse6_call and the three xcm_addr_X_parse) */
 #define XV_P4_PRE(addr_s, ip_, port) (__CPROVER_is_fresh(addr_s, 8) && __CPROVER_is_fresh(ip_, sizeof(in_addr_t)) && __CPROVER_is_fresh(port, sizeof(uint16_t)) && XV_PF_PRE && XV_HB_IP_OK)
@@ -436,20 +438,20 @@ __CPROVER_ensures(XV_P4_RESULT)
 /* PO[C12] parse6_call.outputs: the IPv4 address in network byte order and the port, as delivered; nothing on failure */
 __CPROVER_ensures(XV_P4_OUTPUTS(ip, port))
 ;
-#define XV_P4_CONTRACT(fn, pk) \
+#define XV_PFOUR_CONTRACT(fn, pk) \
     int fn(const char *addr_s, in_addr_t *ip, uint16_t *port) \
     __CPROVER_requires(XV_P4_PRE(addr_s, ip, port)) \
     __CPROVER_assigns(xv_errno, XV_PF_GHOSTS, *ip, *port) \
     __CPROVER_ensures(XV_DP_WRAPS(pk, addr_s) && XV_P4_RESULT && XV_P4_OUTPUTS(ip, port))
 /* PO[C12] xcm_addr_utls_parse.as_new_api_ipv4_only */
-XV_P4_CONTRACT(xcm_addr_utls_parse, XV_P_UTLS);
+XV_PFOUR_CONTRACT(xcm_addr_utls_parse, XV_P_UTLS);
 /* PO[C12] xcm_addr_tls_parse.as_new_api_ipv4_only */
-XV_P4_CONTRACT(xcm_addr_tls_parse, XV_P_TLS);
+XV_PFOUR_CONTRACT(xcm_addr_tls_parse, XV_P_TLS);
 /* PO[C12] xcm_addr_tcp_parse.as_new_api_ipv4_only */
-XV_P4_CONTRACT(xcm_addr_tcp_parse, XV_P_TCP);
+XV_PFOUR_CONTRACT(xcm_addr_tcp_parse, XV_P_TCP);
 
 /* PO[C12] xcm_addr_ux_parse.as_new_api */
-XV_UXP_WRAPPER(xcm_addr_ux_parse, XV_P_UX);
+XV_UXP_CONTRACT(xcm_addr_ux_parse, XV_P_UX);
 
 /* --- makers: an IP host built from the caller's address goes to the new-API maker with port, buffer and capacity */
 #define XV_DM_PRE(ip_, out, cap) (__CPROVER_is_fresh(ip_, sizeof(struct xcm_addr_ip)) && (cap) <= XV_CAP_MAX && XV_OUT(out, cap) && XV_MK_PRE)
@@ -462,22 +464,22 @@ __CPROVER_assigns(capacity > 0: __CPROVER_object_upto(addr_s, capacity))
 /* PO[C12] delegate_make.wraps: the maker given is called exactly once with an IP host holding the caller's family and address bytes, the caller's port, buffer and capacity; result and errno are its */
 __CPROVER_ensures(XV_DM_POST(XV_MFUN_PK(make_fun), ip, port, addr_s, capacity))
 ;
-#define XV_M6_CONTRACT(fn, pk) \
+#define XV_MSIX_CONTRACT(fn, pk) \
     int fn(const struct xcm_addr_ip *ip, uint16_t port, char *out, size_t capacity) \
     __CPROVER_requires(XV_DM_PRE(ip, out, capacity)) \
     __CPROVER_assigns(XV_MK_ASSIGNS) \
     __CPROVER_assigns(capacity > 0: __CPROVER_object_upto(out, capacity)) \
     __CPROVER_ensures(XV_DM_POST(pk, ip, port, out, capacity))
 /* PO[C12] xcm_addr_utls6_make.as_new_api */
-XV_M6_CONTRACT(xcm_addr_utls6_make, XV_P_UTLS);
+XV_MSIX_CONTRACT(xcm_addr_utls6_make, XV_P_UTLS);
 /* PO[C12] xcm_addr_tls6_make.as_new_api */
-XV_M6_CONTRACT(xcm_addr_tls6_make, XV_P_TLS);
+XV_MSIX_CONTRACT(xcm_addr_tls6_make, XV_P_TLS);
 /* PO[C12] xcm_addr_tcp6_make.as_new_api */
-XV_M6_CONTRACT(xcm_addr_tcp6_make, XV_P_TCP);
+XV_MSIX_CONTRACT(xcm_addr_tcp6_make, XV_P_TCP);
 /* PO[C12] xcm_addr_sctp6_make.as_new_api */
-XV_M6_CONTRACT(xcm_addr_sctp6_make, XV_P_SCTP);
+XV_MSIX_CONTRACT(xcm_addr_sctp6_make, XV_P_SCTP);
 /* IPv4 word in, AF_INET host out: same bits (network byte order is not touched) */
-#define XV_M4_CONTRACT(fn, pk) \
+#define XV_MFOUR_CONTRACT(fn, pk) \
     int fn(in_addr_t ip4, unsigned short port, char *out, size_t capacity) \
     __CPROVER_requires(capacity <= XV_CAP_MAX && XV_OUT(out, capacity) && XV_MK_PRE) \
     __CPROVER_assigns(XV_MK_ASSIGNS) \
@@ -485,14 +487,76 @@ XV_M6_CONTRACT(xcm_addr_sctp6_make, XV_P_SCTP);
     __CPROVER_ensures(XV_MK_CALL(pk, port, out, capacity) && xv_mk_type == (int)xcm_addr_type_ip && xv_mk_family == AF_INET && xv_mk_ip4 == ip4 && \
                       MAKE_HONEST(__CPROVER_return_value, capacity) && MAKE_FAIL(__CPROVER_return_value) && (capacity >= XV_IP_ADDR_ROOM ==> __CPROVER_return_value == 0))
 /* PO[C12] xcm_addr_utls_make.as_new_api_ipv4 */
-XV_M4_CONTRACT(xcm_addr_utls_make, XV_P_UTLS);
+XV_MFOUR_CONTRACT(xcm_addr_utls_make, XV_P_UTLS);
 /* PO[C12] xcm_addr_tls_make.as_new_api_ipv4 */
-XV_M4_CONTRACT(xcm_addr_tls_make, XV_P_TLS);
+XV_MFOUR_CONTRACT(xcm_addr_tls_make, XV_P_TLS);
 /* PO[C12] xcm_addr_tcp_make.as_new_api_ipv4 */
-XV_M4_CONTRACT(xcm_addr_tcp_make, XV_P_TCP);
+XV_MFOUR_CONTRACT(xcm_addr_tcp_make, XV_P_TCP);
 /* PO[C12] xcm_addr_ux_make.as_new_api */
-XV_UXM_WRAPPER(xcm_addr_ux_make, XV_P_UX);
+XV_UXM_CONTRACT(xcm_addr_ux_make, XV_P_UX);
 #endif /* XV_AP_COMPAT */
+
+/* ================================================================================================================ */
+#ifdef XV_AP_TP
+/* ---- libxcm/tp/common/common_tp.c: struct xcm_addr_ip <-> struct sockaddr_in / sockaddr_in6 ---------------------------- */
+#define XV_SS_SIZE sizeof(struct sockaddr_storage)
+#define XV_SIN(p) ((struct sockaddr_in *)(p))
+#define XV_SIN6(p) ((struct sockaddr_in6 *)(p))
+/* tp_ip_to_sockaddr.  Preconditions: the family is AF_INET or AF_INET6 (anything else is ut_assert'ed), and for IPv6 the
+ * scope fits sin6_scope_id (uint32_t) - tcp's ipv6.scope setter enforces 0..UINT32_MAX and btcp_server's conf_scope() /
+ * tconnect's track_get_current_scope() turn the "unset" value -1 into 0 first (see the report: one caller does not). */
+void tp_ip_to_sockaddr(const struct xcm_addr_ip *xcm_ip, uint16_t port, int64_t scope, struct sockaddr *sockaddr)
+__CPROVER_requires(__CPROVER_is_fresh(xcm_ip, sizeof(*xcm_ip)) && XV_FAM_OK(xcm_ip->family) && __CPROVER_is_fresh(sockaddr, XV_SS_SIZE))
+__CPROVER_requires(xcm_ip->family == AF_INET6 ==> (scope >= 0 && scope <= UINT32_MAX))
+__CPROVER_requires(xv_hb >= 0 && xv_hb < (long)XV_SS_SIZE)
+__CPROVER_assigns(__CPROVER_object_upto(sockaddr, XV_SS_SIZE))
+/* PO[C12] tp_ip_to_sockaddr.inet: an AF_INET address becomes a sockaddr_in with the same address word and port (both already in network byte order: copied, not converted); every other byte of the sockaddr_storage is zero */
+__CPROVER_ensures(xcm_ip->family == AF_INET ==> (XV_SIN(sockaddr)->sin_family == AF_INET && XV_SIN(sockaddr)->sin_addr.s_addr == xcm_ip->addr.ip4 && XV_SIN(sockaddr)->sin_port == port && \
+                  (xv_hb >= 8 ==> ((const uint8_t *)sockaddr)[xv_hb] == 0)))
+/* PO[C12] tp_ip_to_sockaddr.inet6: an AF_INET6 address becomes a sockaddr_in6 with the same 16 address bytes, port and scope id, flow info 0; every other byte of the sockaddr_storage is zero */
+__CPROVER_ensures(xcm_ip->family == AF_INET6 ==> (XV_SIN6(sockaddr)->sin6_family == AF_INET6 && XV_SIN6(sockaddr)->sin6_port == port && XV_SIN6(sockaddr)->sin6_flowinfo == 0 && \
+                  (int64_t)XV_SIN6(sockaddr)->sin6_scope_id == scope && (xv_mc < 16 ==> XV_SIN6(sockaddr)->sin6_addr.s6_addr[xv_mc] == xcm_ip->addr.ip6[xv_mc]) && \
+                  (xv_hb >= 28 ==> ((const uint8_t *)sockaddr)[xv_hb] == 0)))
+;
+static void sockaddr_to_ip(struct sockaddr_storage *sock_addr, struct xcm_addr_ip *xcm_ip, uint16_t *port)
+__CPROVER_requires(__CPROVER_is_fresh(sock_addr, XV_SS_SIZE) && XV_FAM_OK(sock_addr->ss_family) && __CPROVER_is_fresh(xcm_ip, sizeof(*xcm_ip)) && __CPROVER_is_fresh(port, sizeof(*port)))
+__CPROVER_assigns(__CPROVER_object_upto(xcm_ip, sizeof(*xcm_ip)), *port)
+/* PO[C12] sockaddr_to_ip.inet: family, address word and port of a sockaddr_in, as they are (network byte order) */
+__CPROVER_ensures(sock_addr->ss_family == AF_INET ==> (xcm_ip->family == AF_INET && xcm_ip->addr.ip4 == XV_SIN(sock_addr)->sin_addr.s_addr && *port == XV_SIN(sock_addr)->sin_port))
+/* PO[C12] sockaddr_to_ip.inet6: family, the 16 address bytes and port of a sockaddr_in6, as they are */
+__CPROVER_ensures(sock_addr->ss_family == AF_INET6 ==> (xcm_ip->family == AF_INET6 && *port == XV_SIN6(sock_addr)->sin6_port && \
+                  (xv_mc < 16 ==> xcm_ip->addr.ip6[xv_mc] == XV_SIN6(sock_addr)->sin6_addr.s6_addr[xv_mc])))
+;
+static void sockaddr_to_host(struct sockaddr_storage *sock_addr, struct xcm_addr_host *xcm_host, uint16_t *port)
+__CPROVER_requires(__CPROVER_is_fresh(sock_addr, XV_SS_SIZE) && XV_FAM_OK(sock_addr->ss_family) && __CPROVER_is_fresh(xcm_host, sizeof(*xcm_host)) && __CPROVER_is_fresh(port, sizeof(*port)))
+__CPROVER_assigns(__CPROVER_object_upto(xcm_host, sizeof(*xcm_host)), *port)
+/* PO[C12] sockaddr_to_host.ip_host: an IP-typed host holding what sockaddr_to_ip delivers */
+__CPROVER_ensures(xcm_host->type == xcm_addr_type_ip && xcm_host->ip.family == sock_addr->ss_family)
+__CPROVER_ensures(sock_addr->ss_family == AF_INET ==> (xcm_host->ip.addr.ip4 == XV_SIN(sock_addr)->sin_addr.s_addr && *port == XV_SIN(sock_addr)->sin_port))
+__CPROVER_ensures(sock_addr->ss_family == AF_INET6 ==> (*port == XV_SIN6(sock_addr)->sin6_port && (xv_mc < 16 ==> xcm_host->ip.addr.ip6[xv_mc] == XV_SIN6(sock_addr)->sin6_addr.s6_addr[xv_mc])))
+;
+/* the makers: ASSUMED with the text ENFORCED on them in the XV_AP_ADDR jobs (addrpub.make_wrap@sctp/btcp/btls) */
+XV_MK_CONTRACT(xcm_addr_make_sctp, XV_P_SCTP, uint16_t, 5); XV_MK_CONTRACT(xcm_addr_make_btcp, XV_P_BTCP, unsigned short, 5); XV_MK_CONTRACT(xcm_addr_make_btls, XV_P_BTLS, unsigned short, 5);
+/* tp_sockaddr_to_X_addr: the address of a socket (getsockname/getpeername/accept: AF_INET or AF_INET6) as an XCM address
+ * string.  It ut_assert()s that the maker succeeded: with an IP host, a valid family and a buffer of at least
+ * XV_IP_ADDR_ROOM bytes (every caller passes XCM_ADDR_MAX + 1 = 579) that is XV_MK_IP_OK, so the abort is unreachable. */
+#define XV_STOA_CONTRACT(fn, pk) \
+    void fn(struct sockaddr_storage *sock_addr, char *xcm_addr, size_t capacity) \
+    __CPROVER_requires(__CPROVER_is_fresh(sock_addr, XV_SS_SIZE) && XV_FAM_OK(sock_addr->ss_family) && capacity >= XV_IP_ADDR_ROOM && capacity <= XV_CAP_MAX && XV_OUT(xcm_addr, capacity) && XV_MK_PRE) \
+    __CPROVER_assigns(XV_MK_ASSIGNS) \
+    __CPROVER_assigns(capacity > 0: __CPROVER_object_upto(xcm_addr, capacity)) \
+    __CPROVER_ensures(xv_mk_calls == __CPROVER_old(xv_mk_calls) + 1 && xv_mk_proto == (pk) && xv_mk_cap == capacity && XV_BEQ(xv_mk_out, xcm_addr == xv_t_out) && xv_mk_rv == 0 && \
+                      xv_mk_type == (int)xcm_addr_type_ip && xv_mk_family == (int)sock_addr->ss_family && \
+                      (sock_addr->ss_family == AF_INET ? (xv_mk_ip4 == XV_SIN(sock_addr)->sin_addr.s_addr && xv_mk_port == XV_SIN(sock_addr)->sin_port) \
+                                                       : ((xv_mc < 16 ==> xv_mk_ipb == XV_SIN6(sock_addr)->sin6_addr.s6_addr[xv_mc]) && xv_mk_port == XV_SIN6(sock_addr)->sin6_port)) && \
+                      MAKE_HONEST(0, capacity))
+/* PO[C12] tp_sockaddr_to_sctp_addr.made_from_the_sockaddr */
+XV_STOA_CONTRACT(tp_sockaddr_to_sctp_addr, XV_P_SCTP);
+/* PO[C12] tp_sockaddr_to_btcp_addr.made_from_the_sockaddr */
+XV_STOA_CONTRACT(tp_sockaddr_to_btcp_addr, XV_P_BTCP);
+/* PO[C12] tp_sockaddr_to_btls_addr.made_from_the_sockaddr */
+XV_STOA_CONTRACT(tp_sockaddr_to_btls_addr, XV_P_BTLS);
+#endif /* XV_AP_TP */
 
 #include "contracts/end.h"
 #endif
